@@ -1,5 +1,5 @@
 """C17 - every API call is a pure function of its arguments."""
-import math, random
+import math, os, random
 from . import core, params, cells, calls, fresh, geo
 
 TODAY = dict(RefOff=10, SqOff=20, FaceMul=10, STRefOff=120)
@@ -291,12 +291,41 @@ def run(v):
             events += ev
     finally:
         fr.close()
-    path_events = events
-    core.write_ndjson(d + "/Trace_Pure.ndjson", [{k: x for k, x in e.items() if k != "desc"} for e in path_events])
-    tres = core.run_tlc(d, "Trace_Pure", env={"TRACE_FILE": d + "/Trace_Pure.ndjson"}, timeout=3000, workers=1, heap="12g")
-    core.require_clean(tres, "Trace_Pure")
-    if tres.distinct != len(events) + 1:
-        raise core.MachineryError("Trace_Pure consumed %d of %d lines" % (tres.distinct - 1, len(events)))
+    # the trace is validated in chunks cut at "reset" lines (no state crosses a reset); chunks run in parallel,
+    # each TLC single-threaded because the specification is a line-by-line chain
+    cuts = [0]
+    for k, e in enumerate(events):
+        if e["ev"] == "reset" and k - cuts[-1] >= 40000:
+            cuts.append(k)
+    cuts.append(len(events))
+    import concurrent.futures as cf
+
+    def part(c):
+        lo, hi = cuts[c], cuts[c + 1]
+        sub = d + "/pure_%d" % c
+        os.makedirs(sub + "/tmp", exist_ok=True)
+        for fn in ("Trace_Pure.tla", "Trace_Pure.cfg"):
+            import shutil
+            shutil.copy(d + "/" + fn, sub + "/" + fn)
+        core.write_ndjson(sub + "/Trace_Pure.ndjson", [{k: x for k, x in e.items() if k != "desc"} for e in events[lo:hi]])
+        r = core.run_tlc(sub, "Trace_Pure", env={"TRACE_FILE": sub + "/Trace_Pure.ndjson"}, timeout=3000, workers=1, heap="6g")
+        core.require_clean(r, "Trace_Pure")
+        if r.distinct != hi - lo + 1:
+            raise core.MachineryError("Trace_Pure consumed %d of %d lines" % (r.distinct - 1, hi - lo))
+        return lo, r
+    with cf.ThreadPoolExecutor(max_workers=6) as ex:
+        parts = list(ex.map(part, range(len(cuts) - 1)))
+    tres = None
+    bad_lines = []
+    for lo, r in parts:
+        for l in r.prints("BAD"):
+            val = core.parse_tla(l)
+            bad_lines.append((lo + val[1] - 1, val[2]))
+        if tres is None:
+            tres = r
+        else:
+            tres.generated += r.generated
+            tres.distinct += r.distinct
     v.add_tlc("Trace_Pure", tres, {"events": len(events)})
     v.traces += n_b1 + len(hist)
     v.cov["b1_two_call_histories_replayed"] = n_b1
@@ -306,9 +335,7 @@ def run(v):
     calls_only = [e for e in events if e["ev"] == "call"]
     for e in (calls_only[0], calls_only[-1], calls_only[len(calls_only) // 2]):
         v.sample({"call": e["call"][:100], "bits": e["bits"], "fresh": e["fresh"]})
-    for l in tres.prints("BAD"):
-        val = core.parse_tla(l)
-        i, clauses = val[1] - 1, val[2]
+    for (i, clauses) in sorted(bad_lines):
         e = events[i]
         real = [c for c in clauses if c.startswith("C17")]
         det = {"line": i, "clauses": clauses, "event": {k: e.get(k) for k in ("ev", "cache", "key", "slot", "hit", "call", "bits", "fresh", "preview", "freshpreview", "argsame") if k in e}}
